@@ -14,7 +14,7 @@ import re
 import threading
 
 import glom
-from glom import A as GA, Coalesce, Fill, Invoke, Iter, S, Spec, T, Fold, Vars
+from glom import A as GA, Check, Coalesce, Fill, Invoke, Iter, Ref, S, Spec, T, Fold, Vars
 from glom.core import MODE, ROOT, Path, TargetRegistry, _DEFAULT_SCOPE
 from glom.grouping import Group, ACC_TREE
 
@@ -154,6 +154,7 @@ class Ctx:
     def start_call(self):
         self.local.obs = []
         self.local.depth = 0
+        self.local.kept = []
 
     def obs(self):
         return self.local.obs
@@ -222,9 +223,10 @@ class RProbe(Probe):
 class NestProbe(Probe):
     """custom spec whose user code calls glom() re-entrantly"""
 
-    def __init__(self, ctx, at, inner):
+    def __init__(self, ctx, at, inner, log=False):
         Probe.__init__(self, ctx, at, 'nest')
         self.inner = inner          # BuiltCall
+        self.log = log              # render the inner call's error (str(e)) before re-raising it
 
     def glomit(self, target, scope):
         self._observe(target, scope)
@@ -233,6 +235,10 @@ class NestProbe(Probe):
         loc.depth += 1
         try:
             return self.ctx.do_glom(self.inner)
+        except Exception as e:      # noqa: what a logging callable does
+            if self.log:            # "log it": render now, keep the object, look at it again later
+                self.ctx.local.kept.append((e, scrub(str(e))))
+            raise
         finally:
             loc.depth -= 1
 
@@ -251,6 +257,21 @@ class OpGate:
 
     def __repr__(self):
         return 'OpGate(%s,%r)' % ('.'.join(map(str, self.at)), self.f)
+
+
+class VGate:
+    """the validator callable of a Check: observes, yields, returns True / False"""
+
+    def __init__(self, ctx, at, f):
+        self.ctx, self.at, self.f = ctx, tuple(at), f
+
+    def __call__(self, target):
+        self.ctx.observe(self.at, target, {'k': 'none'}, '-', [], [])
+        self.ctx.gate()
+        return self.f == 'vtrue'
+
+    def __repr__(self):
+        return 'VGate(%s,%r)' % ('.'.join(map(str, self.at)), self.f)
 
 
 class BuiltCall:
@@ -291,7 +312,7 @@ class Builder:
         if op == 'probe':
             return RProbe(self.ctx, at, n['f']) if n.get('r') else Probe(self.ctx, at, n['f'])
         if op == 'nest':
-            return NestProbe(self.ctx, at, self.call(n['call']))
+            return NestProbe(self.ctx, at, self.call(n['call']), bool(n.get('log')))
         if op == 'tuple':
             return tuple(self.spec(c, at + (i,)) for i, c in enumerate(n['c'], 1))
         if op == 'dict' and n.get('sp') == 'invoke':     # one Invoke object, one .specs() step per item
@@ -303,6 +324,8 @@ class Builder:
             return {k: self.spec(c, at + (i,)) for i, (k, c) in enumerate(n['items'], 1)}
         if op == 'each':
             sub = self.spec(n['c'], at + (1,))
+            if n['sp'] == 'uniq':
+                return Iter(sub).unique().all()
             return [sub] if n['sp'] == 'list' else Iter(sub).all()
         if op == 'coal':
             subs = [self.spec(c, at + (i,)) for i, c in enumerate(n['c'], 1)]
@@ -313,6 +336,14 @@ class Builder:
             return Coalesce(*subs)
         if op == 'arglist':        # a list ARGUMENT (argument mode rebuilds it and evaluates the sub-specs)
             return [self.spec(c, at + (i,)) for i, c in enumerate(n['c'], 1)]
+        if op == 'check':
+            return Check(equal_to=build_value(n['eq']), validate=VGate(self.ctx, at + (1,), n['f']))
+        if op == 'tplus':          # T arithmetic with a container operand
+            return T + build_value(n['v'])
+        if op == 'refdef':
+            return Ref(n['name'], self.spec(n['c'], at + (1,)))
+        if op == 'refuse':
+            return Ref(n['name'])
         if op == 'lastvar':        # a scope variable object: bound, assigned into per item, read
             return (S(v=Vars({'n': n['init']})), [GA.v.n], S.v.n)
         if op == 'invoke':         # star-kwargs first, then constants
@@ -351,8 +382,21 @@ def run_call(ctx, bc):
             text = '<str failed: %r>' % (e2,)
         finally:
             ctx.local.render_gate = False
-        return {'ok': False, 'v': {'k': 'none'}, 'cls': codec.exc_class_name(e), 'obs': ctx.obs()}, text
-    return {'ok': True, 'v': project_value(res), 'cls': '', 'obs': ctx.obs()}, ''
+        return {'ok': False, 'v': {'k': 'none'}, 'cls': codec.exc_class_name(e), 'obs': ctx.obs()}, text + _kept_changed(ctx)
+    return {'ok': True, 'v': project_value(res), 'cls': '', 'obs': ctx.obs()}, _kept_changed(ctx)
+
+
+def _kept_changed(ctx):
+    """errors of inner calls that a logging callable rendered and kept: an error object is the
+    inner call's outcome and must still read the same after the outer call has finished"""
+    bad = 0
+    for e, text0 in ctx.local.kept:
+        try:
+            if scrub(str(e)) != text0:
+                bad += 1
+        except Exception:   # noqa
+            bad += 1
+    return '\n<<%d inner error object(s) changed after they were raised>>' % bad if bad else ''
 
 
 def strip_pred(out):
@@ -385,7 +429,7 @@ def _attr_items(o):
 
 def _is_leaf(o):
     return (o is None or isinstance(o, (int, str, float, bool, bytes, set, frozenset, Ctx))
-            or (callable(o) and not hasattr(o, 'glomit') and not isinstance(o, (OpGate,))))
+            or (callable(o) and not hasattr(o, 'glomit') and not isinstance(o, (OpGate, VGate))))
 
 
 def register_baseline(o, depth=0):
@@ -410,7 +454,8 @@ def register_baseline(o, depth=0):
         if id(o) in _BASELINE:
             return
         items = _attr_items(o)
-        _BASELINE[id(o)] = (o, frozenset(str(k) for k, _ in items))
+        # (a private attribute that is None at construction is a cache declared up front: dropped too)
+        _BASELINE[id(o)] = (o, frozenset(str(k) for k, v in items if not (str(k).startswith('_') and v is None)))
         for _, v in items:
             register_baseline(v, depth + 1)
 
@@ -441,7 +486,7 @@ def snapshot(o, seen=None, depth=0):
         return ('dict', id(o), tuple((snapshot(k, seen, depth + 1), snapshot(v, seen, depth + 1)) for k, v in o.items()))
     if t in (set, frozenset):
         return (t.__name__, id(o), tuple(sorted(repr(x) for x in o)))
-    if callable(o) and not hasattr(o, 'glomit') and not isinstance(o, (OpGate,)):
+    if callable(o) and not hasattr(o, 'glomit') and not isinstance(o, (OpGate, VGate)):
         return ('callable', id(o))
     if isinstance(o, Ctx):
         return ('ctx', id(o))
@@ -614,3 +659,24 @@ def require_coverage(cov):
     missing = sorted(k for k in need if not cov.get(k))
     if missing:
         raise vlib.MachineryError('vacuity: mechanism steps / branches never taken: %s' % missing)
+
+
+# ---- the "rendered and re-raised" nesting variant ---------------------------------------------
+def has_log(n):
+    """does the spec contain a nested call whose callable renders the inner error?"""
+    if isinstance(n, dict):
+        if n.get('op') == 'nest' and n.get('log'):
+            return True
+        return any(has_log(v) for v in n.values())
+    if isinstance(n, list):
+        return any(has_log(v) for v in n)
+    return False
+
+
+def unlogged(n):
+    """the same call without the str(e): the law says outcome and error text are the same"""
+    if isinstance(n, dict):
+        return {k: (False if k == 'log' and n.get('op') == 'nest' else unlogged(v)) for k, v in n.items()}
+    if isinstance(n, list):
+        return [unlogged(v) for v in n]
+    return n
